@@ -16,14 +16,17 @@ import (
 )
 
 // Index ranges: wire cases from 0, queue cases from 1_000_000, remote-layer
-// cases (queue 1_500_000, endpoint 1_700_000, remote-MX 1_800_000), helper-law
-// batches from 2_000_000, the literal census is case 3_000_000.
+// cases (queue 1_500_000, endpoint 1_700_000, remote-MX 1_800_000, mixed-MX worlds
+// 1_850_000), AUTH cases from 1_900_000, helper-law batches from 2_000_000, the
+// literal census is case 3_000_000.
 const (
 	wireBase    = 0
 	queueBase   = 1_000_000
 	remoteQBase = 1_500_000
 	remoteWBase = 1_700_000
 	remoteMXBase = 1_800_000
+	mixedMXBase  = 1_850_000
+	authBase     = 1_900_000
 	lawBase     = 2_000_000
 	censusCase  = 3_000_000
 )
@@ -60,6 +63,16 @@ func TestVerif(t *testing.T) {
 	nRemoteMX := r.N(len(mxWorlds)*8, len(mxWorlds)*80)
 	for i := 0; i < nRemoteMX; i++ {
 		r.Run(remoteMXBase+i, fmt.Sprintf("remote-mx-%d", i), func(c *rep.Case) { runRemoteMXCase(t, r, c, remoteMXBase+i) })
+	}
+	// mixed-MX worlds of the remote-MX layer: 2-3 MX records, each failing in its own way
+	nMixedMX := r.N(mixedMXSlots*2, mixedMXSlots*20)
+	for i := 0; i < nMixedMX; i++ {
+		r.Run(mixedMXBase+i, fmt.Sprintf("mixed-mx-%d", i), func(c *rep.Case) { runMixedMXCase(t, r, c, mixedMXBase+i) })
+	}
+	// AUTH layer: failed SASL exchanges at an endpoint with authentication configured
+	nAuth := r.N(120, 1500) // x 24 exchanges
+	for i := 0; i < nAuth; i++ {
+		r.Run(authBase+i, fmt.Sprintf("auth-%d", i), func(c *rep.Case) { runAuthCase(t, r, c, authBase+i) })
 	}
 	for i := 0; i < nLaw; i++ {
 		r.Run(lawBase+i, fmt.Sprintf("law-%d", i), func(c *rep.Case) { runLawCase(r, c, lawBase+i) })
